@@ -432,6 +432,11 @@ def random_recipes(ctx):
             out.append(dict(common, fn="knn_filter", k=min(k, kmax), rh=rng.choice((rh, 2 * rh, 4 * rh + 1))))
             out.append(dict(common, fn="nbr_filter", n=rng.randint(0, 4), rh=rng.choice((rh, 2 * rh + 1, 0)),
                             return_mask=bool(rng.getrandbits(1))))
+            if N > 256:         # large clouds (beyond any internal block size): several thresholds around the typical count
+                pd2 = min(pd, 2)
+                rh2 = max(1, int(2 * span * (1.5 / N) ** (1.0 / pd2))) * (pd2 if o == 1 else 1)
+                for n_ in (1, 2, 3):
+                    out.append(dict(common, pd=pd2, fn="nbr_filter", n=n_, rh=rh2 * rng.choice((1, 2)), return_mask=bool(n_ % 2)))
             vd = rng.randint(1, D)
             out.append({"fn": "voxel_filter", "P": P, "vs": [rng.choice((1, 2, 3, 5, 8, 20, 64, 2 * span + 1))
                                                               for _ in range(vd)],
